@@ -1,10 +1,157 @@
-/- driver ops for property C10 (model side of the correspondence) -/
-import Rsa.Core.Wire
+/- driver ops for property C10 (model side of the correspondence)
 
-open Lean Rsa.Wire
+   c10.session : {"objs": [obj…], "ops": [op…], "cm": bool}
+     obj  = {"vecs": [[rat|null]], "odesc": [[k, lbl]], "rdesc": [[k, [lbl]]], "pdesc": [[k, [lbl]]]}
+     lbl  = int | string | [int] | null
+     answer {"init": [dump], "steps": [{"exc": bool, "store": [dump]} | {"exc": bool, "out": …}]}
+   c10.nfrom   : {"len": n} → [nFromReduced len, nFromLength len]
+   c10.roundtrip : {"n": n, "vec": [...]} → matrix and vector∘matrix
+-/
+import Rsa.Core.Wire
+import Rsa.Core.Rdm
+import Rsa.Gen.C10
+
+open Lean Rsa.Wire Rsa.Rdm
 
 namespace Rsa.Drv.C10
 
-def handle : Handler := fun _op _j => none
+def asLbl (j : Json) : R Lbl :=
+  match j with
+  | .null => pure Lbl.none
+  | .str s => pure (Lbl.str s)
+  | .arr a => do let l ← a.toList.mapM asInt; pure (Lbl.arr l)
+  | _ => do let i ← asInt j; pure (Lbl.int i)
+
+def ofLbl : Lbl → Json
+  | .int i => ofInt i
+  | .str s => Json.str s
+  | .arr l => ofList ofInt l
+  | .none => Json.null
+
+def asDesc (j : Json) : R Desc := do
+  (← asArr j).mapM (fun kv => do
+    match ← asArr kv with
+    | [k, v] => do pure (← asStr k, ← asList asLbl v)
+    | _ => throw "descriptor entry must be [key, values]")
+
+def asODesc (j : Json) : R ODesc := do
+  (← asArr j).mapM (fun kv => do
+    match ← asArr kv with
+    | [k, v] => do pure (← asStr k, ← asLbl v)
+    | _ => throw "descriptor entry must be [key, value]")
+
+def ofDesc (d : Desc) : Json :=
+  ofList (fun kv => Json.arr #[Json.str kv.1, ofList ofLbl kv.2]) d
+
+def ofODesc (d : ODesc) : Json :=
+  ofList (fun kv => Json.arr #[Json.str kv.1, ofLbl kv.2]) d
+
+def ofVec (v : List (Option Rat)) : Json := ofList (ofOpt ofRat) v
+
+def asObj (j : Json) : R (Obj Rat) := do
+  let vecs ← fld j "vecs" >>= asList (asList (asOpt asRat))
+  let od ← asODesc (fldD j "odesc" (Json.arr #[]))
+  let rd ← asDesc (fldD j "rdesc" (Json.arr #[]))
+  let pd ← asDesc (fldD j "pdesc" (Json.arr #[]))
+  match mk2d vecs od rd pd with
+  | some o => pure o
+  | none => throw "initial object rejected by the constructor"
+
+def ofObj (o : Obj Rat) : Json :=
+  obj [("n", ofNat o.nCond), ("vecs", ofList ofVec o.vecs), ("odesc", ofODesc o.odesc),
+       ("rdesc", ofDesc o.rdesc), ("pdesc", ofDesc o.pdesc)]
+
+def ofStore (s : Store Rat) : Json := ofList ofObj s
+
+def ofMatrix (n : Nat) (m : Nat → Nat → Option Rat) : Json :=
+  ofList (fun i => ofList (fun j => ofOpt ofRat (m i j)) (List.range n)) (List.range n)
+
+def ofRow (r : List (String × Lbl)) : Json :=
+  ofList (fun kv => Json.arr #[Json.str kv.1, ofLbl kv.2]) r
+
+def ofDf (rows : List (DfRow Rat)) : Json :=
+  ofList (fun r => obj [("v", ofOpt ofRat r.value), ("rdm", ofRow r.rdm),
+                        ("c1", ofRow r.c1), ("c2", ofRow r.c2)]) rows
+
+def asVals (j : Json) : R (List Lbl) := fld j "vals" >>= asList asLbl
+
+/-- parse a store-changing operation -/
+def asOp (name : String) (j : Json) : R (Option Op) := do
+  let src := fld j "src" >>= asNat
+  let by_ := fld j "by" >>= asStr
+  match name with
+  | "getitem" => pure (some (.getitem (← src) (← fld j "sel" >>= asList asNat)))
+  | "subset" => pure (some (.subset (← src) (← by_) (← asVals j)))
+  | "subsample" => pure (some (.subsample (← src) (← by_) (← asVals j)))
+  | "subset_pattern" => pure (some (.subsetPattern (← src) (← by_) (← asVals j)))
+  | "subsample_pattern" => pure (some (.subsamplePattern (← src) (← by_) (← asVals j)))
+  | "reorder" => pure (some (.reorder (← src) (← fld j "ord" >>= asList asNat)))
+  | "sort_alpha" => pure (some (.sortAlpha (← src) (← by_) (← fld j "reindex" >>= asBool)))
+  | "sort_list" => pure (some (.sortList (← src) (← by_) (← asVals j) (← fld j "reindex" >>= asBool)))
+  | "append" => pure (some (.append (← src) (← fld j "other" >>= asNat)))
+  | "concat" => pure (some (.concat (← fld j "srcs" >>= asList asNat)))
+  | "copy" => pure (some (.copy (← src)))
+  | "dict" => pure (some (.copy (← src)))
+  | "from_partials" =>
+      pure (some (.fromPartials (← fld j "srcs" >>= asList asNat)
+        (← asOpt (asList asLbl) (fldD j "all" Json.null)) (← fld j "desc" >>= asStr)))
+  | "permute" => pure (some (.permute (← src) (← fld j "p" >>= asList asNat)))
+  | "inverse_permute" => pure (some (.inversePermute (← src)))
+  | _ => pure none
+
+/-- read-only queries: `iter`, `matrices`, `vectors`, `to_df` -/
+def query (name : String) (s : Store Rat) (j : Json) : R Json := do
+  let i ← fld j "src" >>= asNat
+  match s[i]? with
+  | none => pure (obj [("exc", Json.bool true)])
+  | some o =>
+    match name with
+    | "iter" =>
+        let items := (List.range o.nRdm).map (fun r => o.getitem [r])
+        if items.all Option.isSome then
+          pure (obj [("exc", Json.bool false), ("out", ofList (ofOpt ofObj) items)])
+        else pure (obj [("exc", Json.bool true)])
+    | "matrices" =>
+        pure (obj [("exc", Json.bool false),
+          ("out", ofList (fun r => ofMatrix o.nCond (o.matrix r)) (List.range o.nRdm))])
+    | "vectors" => pure (obj [("exc", Json.bool false), ("out", ofList ofVec o.vecs)])
+    | "to_df" => pure (obj [("exc", Json.bool false), ("out", ofDf o.toDf)])
+    | _ => throw s!"unknown session op {name}"
+
+def session (j : Json) : R Json := do
+  let objs ← fld j "objs" >>= asList asObj
+  let ops ← fld j "ops" >>= asArr
+  let cm ← asBool (fldD j "cm" (Json.bool true))
+  let mut s : Store Rat := objs
+  let mut out : Array Json := #[]
+  for oj in ops do
+    let name ← fld oj "op" >>= asStr
+    match ← asOp name oj with
+    | some op =>
+      match stepE cm s op with
+      | some s' =>
+        s := s'
+        out := out.push (obj [("exc", Json.bool false), ("store", ofStore s)])
+      | none => out := out.push (obj [("exc", Json.bool true), ("store", ofStore s)])
+    | none => out := out.push (← query name s oj)
+  pure (obj [("init", ofStore objs), ("steps", Json.arr out)])
+
+def nfrom (j : Json) : R Json := do
+  let n ← fld j "len" >>= asNat
+  pure (Json.arr #[ofNat (Rsa.Gen.C10.nFromReduced n), ofNat (Rsa.Gen.C10.nFromLength n)])
+
+/-- vector → square → vector on one RDM of `n` conditions -/
+def roundtrip (j : Json) : R Json := do
+  let n ← fld j "n" >>= asNat
+  let v ← fld j "vec" >>= asList (asOpt asRat)
+  let m := matOf n (some (0 : Rat)) v
+  pure (obj [("matrix", ofMatrix n m), ("vector", ofVec (Rsa.matToVec n m))])
+
+def handle : Handler := fun op j =>
+  match op with
+  | "c10.session" => some (session j)
+  | "c10.nfrom" => some (nfrom j)
+  | "c10.roundtrip" => some (roundtrip j)
+  | _ => none
 
 end Rsa.Drv.C10
